@@ -1,4 +1,5 @@
 import Dashu.Props.C15FloatAdd
+import Dashu.Props.C15CtxTie
 open Dashu.Props.C15FloatAdd
 #print axioms splitDigits_neg
 #print axioms sgn_neg
@@ -7,3 +8,6 @@ open Dashu.Props.C15FloatAdd
 #print axioms add_ref_val_is_model
 #print axioms float_add_forms_agree
 #print axioms dub_of_magnitude
+#print axioms Dashu.Props.C15CtxTie.add_ref_ref_eq_context_add
+#print axioms Dashu.Props.C15CtxTie.sub_ref_ref_eq_context_sub
+#print axioms Dashu.Props.C15CtxTie.float_addsub_forms_eq_context
